@@ -21,15 +21,16 @@ import (
 )
 
 type compileCase struct {
-	ID       string `json:"id"`
-	Src      string `json:"src"`
-	SrcHex   string `json:"src_hex"` // alternative to src for arbitrary bytes
-	Mode     string `json:"mode"`
-	N        int    `json:"n"`      // number of compilations (>=1)
-	Verify   bool   `json:"verify"` // run the C12 verifier on the result
-	Filename string `json:"filename"`
-	Between  string `json:"between"` // another source compiled between repeats (interleaving)
-	NoDump   bool   `json:"nodump"`  // do not render the dump (size stress)
+	ID          string `json:"id"`
+	Src         string `json:"src"`
+	SrcHex      string `json:"src_hex"` // alternative to src for arbitrary bytes
+	Mode        string `json:"mode"`
+	N           int    `json:"n"`      // number of compilations (>=1)
+	Verify      bool   `json:"verify"` // run the C12 verifier on the result
+	Filename    string `json:"filename"`
+	Between     string `json:"between"`      // another source compiled between repeats (interleaving)
+	NoDump      bool   `json:"nodump"`       // do not render the dump (size stress)
+	BetweenMode string `json:"between_mode"` // compile mode of the interleaved compilation
 }
 
 func init() {
@@ -193,7 +194,7 @@ func compileHandler(raw json.RawMessage) map[string]interface{} {
 		if c.Between != "" {
 			func() {
 				defer func() { recover() }()
-				py.Compile(c.Between, "<between>", py.ExecMode, 0, true)
+				py.Compile(c.Between, "<between>", pyMode(c.BetweenMode), 0, true)
 			}()
 		}
 	}
